@@ -29,8 +29,9 @@ RULE = ('(a) seeded histories of opens (accepted / rejected by every handler '
         'reason) signatures')
 ASSUMPTIONS = ['handlers take (sid, reason), or - in a seeded share of the '
                'histories - the legacy (sid) form, whose reason is unobservable '
-               'and not judged; injected handler failures never are TypeErrors, '
-               'so the legacy retry cannot re-run a handler body',
+               'and not judged; injected handler failures are raised AFTER the '
+               'event was logged, so a re-run of a handler body would show as '
+               'a duplicate event',
                'injected handler failures are Exception subclasses or, in a '
                'seeded share, BaseException-only (what eventlet/gevent '
                'Timeout and GreenletExit are); handlers may block / await for '
@@ -139,8 +140,12 @@ def automaton(rec, sim, R, V, final=True, pi=25, pt=20):
             continue
         d = dis[0]
         if d['reason'] == '?legacy':
+            # the legacy (sid)-only handler cannot see the reason; judge the
+            # one the server handed to the dispatcher (noted at that boundary)
             rec.count('legacy_handler_ends')
-            continue
+            d = dict(d, reason=d.get('true_reason', '?legacy'))
+            if d['reason'] == '?legacy':
+                continue
         rec.count('reason_ledger')
         cands = [c for c in R.causes if c['s'] in (s.n, '*') and
                  c['c_start'] < d['clk']]
@@ -235,11 +240,14 @@ def run_history(rec, case):
         if rng.random() < 0.2:
             boom['disconnect:*'] = True
         hcfg['boom_base'] = rng.random() < 0.4
+        if not hcfg['boom_base'] and rng.random() < 0.4:
+            hcfg['boom_type'] = 'typeerror'
     hcfg['legacy_disconnect'] = rng.random() < 0.2
     if rng.random() < 0.25:
         hcfg['suspend'] = {rng.choice(['message', 'disconnect']):
                            rng.choice([0.001, 0.25, 1.0])}
-    script = [rng.choice([None, None, None, True, False, 'no', 'raise', 0])
+    script = [rng.choice([None, None, None, True, False, 'no', 'raise', 0,
+                          'raise-type'])
               for _ in range(8)]
     sim = scen.make_sim(srv, server_kwargs={'ping_interval': pi,
                                             'ping_timeout': pt},
